@@ -1620,3 +1620,1034 @@ class Bounds:
                             hi = min(hi, ob[1] - 1)
             # any later store would have been counted in last_store
         return (lo, hi)
+
+
+# =============================================================================
+# Stream-position abstract interpretation
+# =============================================================================
+class SState:
+    """abstract state: per stream key the position interval relative to the base point and the
+    number of anchored checked bytes; `saved` maps expression text -> (key, lo, hi) for values known
+    to equal base_position(key) + [lo, hi]."""
+    __slots__ = ("pos", "anch", "saved")
+
+    def __init__(self, pos=None, anch=None, saved=None):
+        self.pos = pos or {}
+        self.anch = anch or {}
+        self.saved = saved or {}
+
+    def copy(self):
+        return SState(dict(self.pos), dict(self.anch), dict(self.saved))
+
+    def p(self, key):
+        return self.pos.get(key, ZERO)
+
+    def a(self, key):
+        return self.anch.get(key, 0)
+
+    def keys(self):
+        return set(self.pos) | set(self.anch)
+
+    def __eq__(self, o):
+        return isinstance(o, SState) and self._norm() == o._norm()
+
+    def _norm(self):
+        ks = self.keys()
+        return ({k: self.p(k) for k in ks if self.p(k) != ZERO}, {k: self.a(k) for k in ks if self.a(k)}, self.saved)
+
+    def __repr__(self):
+        return "S(%s)" % ", ".join("%s:%s/a%d" % (k, iv_str(self.p(k)), self.a(k)) for k in sorted(self.keys()))
+
+
+def s_join(a, b):
+    if a is None:
+        return b
+    if b is None:
+        return a
+    out = SState()
+    for k in a.keys() | b.keys():
+        out.pos[k] = iv_join(a.p(k), b.p(k))
+        out.anch[k] = min(a.a(k), b.a(k))
+    for n, (k, lo, hi) in a.saved.items():
+        if n in b.saved and b.saved[n][0] == k:
+            out.saved[n] = (k, min(lo, b.saved[n][1]), max(hi, b.saved[n][2]))
+    return out
+
+
+def s_widen(old, new):
+    """old ⊑ new expected; bounds that moved go to infinity, anchors to the minimum"""
+    out = SState()
+    for k in old.keys() | new.keys():
+        o, n = old.p(k), new.p(k)
+        out.pos[k] = (o[0] if n[0] >= o[0] else -INF, o[1] if n[1] <= o[1] else INF)
+        out.anch[k] = min(old.a(k), new.a(k))
+    for nme, v in old.saved.items():
+        if new.saved.get(nme) == v:
+            out.saved[nme] = v
+    return out
+
+
+class Out:
+    """outcomes of executing a block"""
+    __slots__ = ("fall", "brk", "cont", "ret")
+
+    def __init__(self, fall=None, brk=None, cont=None, ret=None):
+        self.fall, self.brk, self.cont, self.ret = fall, brk, cont, ret
+
+
+class Summary:
+    """effect of calling a function, per stream key as spelled inside the callee"""
+
+    def __init__(self):
+        self.keys = {}        # key -> (lo, hi, anch)   (parameter-rooted and self-rooted keys)
+        self.returns = False  # some path returns normally
+        self.wild = False     # may move a stream it does not receive as a parameter to an unknown/earlier position
+        self.has_seek = False # closure contains a seek (position at an exception is arbitrary)
+        self.touches = False  # closure reads/seeks some stream
+        self.facts = {}       # (constructors) attr text 'self.x' -> (key, lo, hi): attribute holds position of key at entry + [lo,hi]
+        self.unresolved = []  # calls that receive a stream but could not be resolved
+
+    def sig(self):
+        return (tuple(sorted(self.keys.items())), self.returns, self.wild, self.has_seek, self.touches, tuple(sorted(self.facts.items())))
+
+    def __repr__(self):
+        return "Summary(%s%s%s%s)" % (
+            ", ".join("%s:%s/a%s" % (k, iv_str(v[:2]), v[2]) for k, v in sorted(self.keys.items())),
+            "" if self.returns else " NORETURN", " WILD" if self.wild else "", " facts=%s" % self.facts if self.facts else "")
+
+
+STREAM_METHODS = ("read", "seek", "tell")
+
+
+class StreamAnalysis:
+    def __init__(self, cg: CallGraph, bounds: Bounds | None = None):
+        self.cg = cg
+        self.b = bounds or Bounds(cg)
+        self.summaries: dict[int, Summary] = {}
+        self._in_progress = set()
+        self._alias = {}
+        self._fresh = {}
+        self.hooks = {}          # id(node) -> list to which the state *before* the node is appended
+        self.post_hooks = {}     # id(node) -> list; state *after*
+
+    # ------------------------------------------------------------------ keys
+    def aliases(self, f: Func):
+        """single-assignment aliases  T = V  (T a local name or self attribute, V a name/attribute chain)"""
+        k = id(f.node)
+        if k in self._alias:
+            return self._alias[k]
+        cand, count = {}, {}
+        fresh = set()
+        for n in own_nodes(f.node):
+            if isinstance(n, ast.Assign) and len(n.targets) == 1:
+                t = n.targets[0]
+                tt = dotted(t)
+                if tt is None:
+                    continue
+                count[tt] = count.get(tt, 0) + 1
+                if isinstance(n.value, (ast.Name, ast.Attribute)) and dotted(n.value) is not None:
+                    cand[tt] = dotted(n.value)
+                elif isinstance(n.value, ast.Call):
+                    r = self.cg.resolve_callable(n.value.func, f)
+                    if r is not None and r[0] == "external":
+                        fresh.add(tt)
+            elif isinstance(n, (ast.Assign, ast.AugAssign, ast.For, ast.AsyncFor, ast.comprehension, ast.withitem, ast.AnnAssign)):
+                tg = []
+                if isinstance(n, ast.Assign):
+                    tg = n.targets
+                elif isinstance(n, ast.withitem):
+                    tg = [n.optional_vars] if n.optional_vars is not None else []
+                else:
+                    tg = [n.target]
+                for t in tg:
+                    for x in ast.walk(t):
+                        d = dotted(x) if isinstance(x, (ast.Name, ast.Attribute)) else None
+                        if d:
+                            count[d] = count.get(d, 0) + 2
+        params = {p.arg for p in self.cg._params_of(f)}
+        al = {t: v for t, v in cand.items() if count.get(t, 0) == 1 and t not in params and t != v}
+        self._alias[k] = al
+        self._fresh[k] = {t for t in fresh if count.get(t, 0) >= 1 and t not in params and "." not in t}
+        return al
+
+    def key_of(self, e, f: Func):
+        d = dotted(e)
+        if d is None:
+            return None
+        al = self.aliases(f)
+        seen = set()
+        while d in al and d not in seen:
+            seen.add(d)
+            d = al[d]
+        # prefix aliasing:  x = self.axml ; x.buff
+        parts = d.split(".")
+        for i in range(len(parts) - 1, 0, -1):
+            pre = ".".join(parts[:i])
+            if pre in al and pre not in seen:
+                d = al[pre] + "." + ".".join(parts[i:])
+                break
+        return d
+
+    def is_stream_recv(self, recv, f: Func):
+        """receiver of .read/.seek/.tell is treated as a byte stream unless its static type is a repository class"""
+        t = self.cg.type_of(recv, f)
+        return not isinstance(t, Cls)
+
+    def is_fresh_local(self, key, f: Func):
+        self.aliases(f)
+        return key in self._fresh.get(id(f.node), set())
+
+    # ------------------------------------------------------------------ checked reads
+    def checked_read(self, call, f: Func):
+        """`call` is struct-style unpack of S.read(n) with n == calcsize(fmt) > 0 -> (key, n, read_call) else None"""
+        if not isinstance(call, ast.Call) or not CallGraph._is_unpack_call(call):
+            return None
+        fmt = self.b.unpack_fmt(call, f)
+        if fmt is None:
+            return None
+        try:
+            size = struct.calcsize(fmt)
+        except struct.error:
+            return None
+        fn = call.func
+        if isinstance(fn, ast.Name) or (isinstance(fn, ast.Attribute) and isinstance(fn.value, ast.Name) and fn.value.id == "struct"):
+            if len(call.args) < 2:
+                return None
+            arg = call.args[1]
+        else:
+            if not call.args:
+                return None
+            arg = call.args[0]
+        rd = self._as_read(arg, f)
+        if rd is None:
+            return None
+        key, nexpr, rcall = rd
+        n = self.b.fold(nexpr, f)
+        if not isinstance(n, int) or isinstance(n, bool):
+            return None
+        if n != size or n <= 0:
+            return None
+        return (key, n, rcall)
+
+    def _as_read(self, arg, f: Func):
+        """arg is `S.read(N)` or a name whose dominating definition is `S.read(N)` -> (key, N expr, call node)"""
+        if isinstance(arg, ast.Name):
+            dd = self.cg.dominating_def(arg, f)
+            if dd is None:
+                return None
+            # the definition must be the immediately relevant read: no other stream operation on the same
+            # stream is checked here; position-wise the read was already accounted for at its own statement
+            r = self._as_read(dd, f)
+            if r is None:
+                return None
+            return (r[0], r[1], None)  # None: the read call itself was executed earlier (as an unchecked read)
+        if isinstance(arg, ast.Call) and isinstance(arg.func, ast.Attribute) and arg.func.attr == "read" and len(arg.args) == 1 \
+                and not arg.keywords and self.is_stream_recv(arg.func.value, f):
+            key = self.key_of(arg.func.value, f)
+            if key is None:
+                return None
+            return (key, arg.args[0], arg)
+        return None
+
+    # ------------------------------------------------------------------ summaries
+    def summary(self, f: Func) -> Summary:
+        k = id(f.node)
+        if k in self.summaries:
+            return self.summaries[k]
+        self.compute([f])
+        return self.summaries[k]
+
+    def compute(self, roots):
+        """bottom-up summaries for everything reachable from roots (least fixpoint inside SCCs)"""
+        todo = [f for f in self.cg.closure(roots) if id(f.node) not in self.summaries]
+        if not todo:
+            return
+        for comp in self.cg.bottom_up(todo):
+            comp = [f for f in comp if id(f.node) not in self.summaries]
+            if not comp:
+                continue
+            recursive = len(comp) > 1 or any(t.node is comp[0].node for t in self.cg.callees(comp[0]))
+            if not recursive:
+                f = comp[0]
+                self.summaries[id(f.node)] = self._analyse_function(f)
+                continue
+            for f in comp:
+                self.summaries[id(f.node)] = Summary()  # bottom: no normal return
+            for rnd in range(12):
+                changed = False
+                for f in comp:
+                    s = self._analyse_function(f)
+                    old = self.summaries[id(f.node)]
+                    if rnd >= 4:
+                        s = self._widen_summary(old, s)
+                    if s.sig() != old.sig():
+                        changed = True
+                        self.summaries[id(f.node)] = s
+                if not changed:
+                    break
+            else:
+                for f in comp:
+                    s = self.summaries[id(f.node)]
+                    s.keys = {k2: (-INF, INF, 0) for k2 in s.keys}
+                    s.wild = True
+
+    @staticmethod
+    def _widen_summary(old, new):
+        for k, v in list(new.keys.items()):
+            o = old.keys.get(k)
+            if o is None:
+                continue
+            lo = o[0] if v[0] >= o[0] else -INF
+            hi = o[1] if v[1] <= o[1] else INF
+            new.keys[k] = (lo, hi, min(o[2], v[2]))
+        return new
+
+    def _analyse_function(self, f: Func) -> Summary:
+        run = _Run(self, f)
+        st0 = SState()
+        out = run.block(f.node.body, st0)
+        exit_state = s_join(out.fall, out.ret)
+        s = Summary()
+        s.has_seek = run.has_seek
+        s.touches = run.touches
+        s.wild = run.wild
+        s.unresolved = run.unresolved
+        if exit_state is None:
+            return s
+        s.returns = True
+        params = {p.arg for p in self.cg._params_of(f)}
+        sn = self.cg.self_name(f)
+        for key in exit_state.keys():
+            root = key.split(".")[0]
+            p, a = exit_state.p(key), exit_state.a(key)
+            if root in params or (sn is not None and root == sn):
+                s.keys[key] = (p[0], p[1], a)
+                if not (root in params and "." not in key) and p[0] < 0:
+                    # a stream held in an object (self.x / param.x) may end before where it was
+                    s.wild = True
+            elif self.is_fresh_local(root, f):
+                continue
+            else:
+                if p[0] < 0:
+                    s.wild = True
+        if f.name == "__init__" and sn is not None:
+            for name, (key, lo, hi) in exit_state.saved.items():
+                if name.startswith(sn + ".") and key.split(".")[0] in params and "." not in key:
+                    attr = name[len(sn) + 1:]
+                    if "." not in attr and f.cls is not None and self._stored_only_in_init(f.cls, attr):
+                        s.facts[attr] = (key, lo, hi)
+        return s
+
+    def _stored_only_in_init(self, cls, attr):
+        return all(m.name == "__init__" for m, *_ in self.b._stores(cls, attr))
+
+    # ------------------------------------------------------------------ loop bodies
+    def loop_effect(self, f: Func, loop):
+        """abstract effect of ONE iteration of `loop` (ast.While / ast.For / comprehension parent):
+        -> (state at the back edge or None if the body never reaches it, run object).  Base point:
+        the loop head (position when the test / next() is evaluated)."""
+        run = _Run(self, f)
+        st = SState()
+        if isinstance(loop, ast.While):
+            st = run.expr(loop.test, st)
+            out = run.block(loop.body, st)
+            back = s_join(out.fall, out.cont)
+        elif isinstance(loop, (ast.For, ast.AsyncFor)):
+            out = run.block(loop.body, st)
+            back = s_join(out.fall, out.cont)
+        else:
+            raise AnalysisError("loop_effect: unsupported loop node %s" % type(loop).__name__)
+        return back, run, out
+
+    def comp_effect(self, f: Func, comp_expr, gen_index=0):
+        """one iteration of generator `gen_index` of a comprehension expression"""
+        run = _Run(self, f)
+        st = run.comp_body(comp_expr, gen_index, SState())
+        return st, run
+
+
+class _Run:
+    """one abstract execution of a function body (or of one loop iteration)"""
+
+    MAX_ITER = 6
+
+    def __init__(self, sa: StreamAnalysis, f: Func):
+        self.sa = sa
+        self.f = f
+        self.cg = sa.cg
+        self.b = sa.b
+        self.has_seek = False
+        self.touches = False
+        self.wild = False
+        self.unresolved = []
+        self.call_states = []   # (call node, target Func, state before, {callee key: caller key})
+        self.lows = []          # stack of {key: lowest lo seen} trackers (try bodies)
+        self.accs = []          # stack of [state] accumulators (try bodies)
+        self.seek_events = 0
+        self.seen_states = {}   # id(node) -> joined state before the node (on demand via sa.hooks)
+
+    # ------------------------------------------------------------------ state updates
+    def _setpos(self, st, key, p):
+        st.pos[key] = p
+        for lw in self.lows:
+            lw[key] = min(lw.get(key, INF), p[0])
+
+    def _advance(self, st, key, d, low=None):
+        p = st.p(key)
+        if low is not None:
+            for lw in self.lows:
+                lw[key] = min(lw.get(key, INF), p[0] + low)
+        self._setpos(st, key, iv_add(p, d))
+
+    def _kill(self, st, text):
+        """`text` (a name or dotted attribute) is re-bound"""
+        for n in list(st.saved):
+            if n == text or n.startswith(text + "."):
+                del st.saved[n]
+        for k in list(st.keys()):
+            if k == text or k.startswith(text + "."):
+                self._setpos(st, k, TOP)
+
+    # ------------------------------------------------------------------ position values
+    def pos_value(self, e, st, subst=None):
+        """e evaluates to base_position(key) + [lo, hi] -> (key, lo, hi) or None.
+        subst = (self_name, receiver_text, Cls, Func) when e comes from a property body."""
+        f = subst[3] if subst else self.f
+        if isinstance(e, ast.Call) and isinstance(e.func, ast.Attribute) and e.func.attr == "tell" and not e.args and subst is None:
+            if self.sa.is_stream_recv(e.func.value, f):
+                key = self.sa.key_of(e.func.value, f)
+                if key is not None:
+                    p = st.p(key)
+                    return (key, p[0], p[1])
+            return None
+        if isinstance(e, (ast.Name, ast.Attribute)):
+            d = dotted(e)
+            if d is None:
+                return None
+            if subst is not None:
+                if d == subst[0] or d.startswith(subst[0] + "."):
+                    d = subst[1] + d[len(subst[0]):]
+                else:
+                    return None
+            else:
+                d2 = self.sa.key_of(e, f)
+                if d2 in st.saved:
+                    d = d2
+            if d in st.saved:
+                return st.saved[d]
+            # a property of an object with known position facts:  h.end -> self.start + self.size
+            if isinstance(e, ast.Attribute):
+                if subst is not None:
+                    recv_text, cls = None, None
+                    if isinstance(e.value, ast.Name) and e.value.id == subst[0]:
+                        recv_text, cls = subst[1], subst[2]
+                else:
+                    recv_text = self.sa.key_of(e.value, f)
+                    cls = self.cg.type_of(e.value, f)
+                if recv_text is not None and isinstance(cls, Cls):
+                    pm = cls.lookup(e.attr)
+                    if pm is not None and is_property(pm.node):
+                        rets = [n for n in own_nodes(pm.node) if isinstance(n, ast.Return)]
+                        sn = self.cg.self_name(pm)
+                        if len(rets) == 1 and rets[0].value is not None and sn is not None and len(pm.node.body) <= 2:
+                            return self.pos_value(rets[0].value, st, (sn, recv_text, cls, pm))
+            return None
+        if isinstance(e, ast.BinOp) and isinstance(e.op, (ast.Add, ast.Sub)):
+            l = self.pos_value(e.left, st, subst)
+            if l is not None:
+                d = self._int(e.right, subst)
+                if isinstance(e.op, ast.Sub):
+                    d = iv_neg(d)
+                return (l[0], l[1] + d[0], l[2] + d[1])
+            if isinstance(e.op, ast.Add):
+                r = self.pos_value(e.right, st, subst)
+                if r is not None:
+                    d = self._int(e.left, subst)
+                    return (r[0], r[1] + d[0], r[2] + d[1])
+        return None
+
+    def _int(self, e, subst=None):
+        if subst is None:
+            return self.b.eval(e, self.f)
+        return self.b.eval(e, subst[3], 0, (subst[0], subst[2]))
+
+    # ------------------------------------------------------------------ statements
+    def block(self, stmts, st) -> Out:
+        out = Out()
+        cur = st
+        for s in stmts:
+            if cur is None:
+                break
+            o = self.stmt(s, cur)
+            out.brk = s_join(out.brk, o.brk)
+            out.cont = s_join(out.cont, o.cont)
+            out.ret = s_join(out.ret, o.ret)
+            cur = o.fall
+        out.fall = cur
+        return out
+
+    def _acc(self, st):
+        if st is not None:
+            for a in self.accs:
+                a[0] = s_join(a[0], st.copy())
+
+    def stmt(self, s, st) -> Out:
+        hk = self.sa.hooks.get(id(s))
+        if hk is not None:
+            hk.append(st.copy())
+        self._acc(st)
+        o = self._stmt(s, st.copy())
+        for x in (o.fall, o.brk, o.cont, o.ret):
+            self._acc(x)
+        return o
+
+    def _stmt(self, s, st) -> Out:
+        if isinstance(s, ast.Expr):
+            return Out(fall=self.expr(s.value, st))
+        if isinstance(s, ast.Assign):
+            st = self.expr(s.value, st)
+            if st is None:
+                return Out()
+            pv = self.pos_value(s.value, st)
+            for t in s.targets:
+                st = self._bind(t, s.value, st, pv)
+            return Out(fall=st)
+        if isinstance(s, ast.AnnAssign):
+            if s.value is not None:
+                st = self.expr(s.value, st)
+                if st is None:
+                    return Out()
+                st = self._bind(s.target, s.value, st, self.pos_value(s.value, st))
+            return Out(fall=st)
+        if isinstance(s, ast.AugAssign):
+            st = self.expr(s.value, st)
+            if st is None:
+                return Out()
+            d = dotted(s.target)
+            if d is not None:
+                old = st.saved.get(d)
+                self._kill(st, d)
+                if old is not None and isinstance(s.op, (ast.Add, ast.Sub)):
+                    dv = self._int(s.value)
+                    if isinstance(s.op, ast.Sub):
+                        dv = iv_neg(dv)
+                    st.saved[d] = (old[0], old[1] + dv[0], old[2] + dv[1])
+            else:
+                st = self.expr(s.target, st)
+            return Out(fall=st)
+        if isinstance(s, ast.If):
+            st = self.expr(s.test, st)
+            if st is None:
+                return Out()
+            a = self.block(s.body, st.copy())
+            b = self.block(s.orelse, st.copy()) if s.orelse else Out(fall=st)
+            return Out(s_join(a.fall, b.fall), s_join(a.brk, b.brk), s_join(a.cont, b.cont), s_join(a.ret, b.ret))
+        if isinstance(s, ast.While):
+            return self._loop(s, st, test=s.test)
+        if isinstance(s, (ast.For, ast.AsyncFor)):
+            st = self.expr(s.iter, st)
+            if st is None:
+                return Out()
+            return self._loop(s, st, target=s.target)
+        if isinstance(s, ast.Return):
+            st = self.expr(s.value, st) if s.value is not None else st
+            return Out(ret=st)
+        if isinstance(s, ast.Raise):
+            return Out()
+        if isinstance(s, ast.Break):
+            return Out(brk=st)
+        if isinstance(s, ast.Continue):
+            return Out(cont=st)
+        if isinstance(s, ast.Try) or (hasattr(ast, "TryStar") and isinstance(s, ast.TryStar)):
+            return self._try(s, st)
+        if isinstance(s, (ast.With, ast.AsyncWith)):
+            for it in s.items:
+                st = self.expr(it.context_expr, st)
+                if st is None:
+                    return Out()
+                if it.optional_vars is not None:
+                    st = self._bind(it.optional_vars, None, st, None)
+            return self.block(s.body, st)
+        if isinstance(s, ast.Assert):
+            return Out(fall=self.expr(s.test, st))
+        if isinstance(s, ast.Delete):
+            for t in s.targets:
+                d = dotted(t)
+                if d:
+                    self._kill(st, d)
+            return Out(fall=st)
+        if isinstance(s, ast.Match):
+            st = self.expr(s.subject, st)
+            res = Out(fall=st.copy() if st is not None else None)
+            for c in s.cases:
+                o = self.block(c.body, st.copy())
+                res = Out(s_join(res.fall, o.fall), s_join(res.brk, o.brk), s_join(res.cont, o.cont), s_join(res.ret, o.ret))
+            return res
+        # def / class / import / global / nonlocal / pass
+        return Out(fall=st)
+
+    def _bind(self, target, value, st, pv):
+        if isinstance(target, (ast.Tuple, ast.List)):
+            for t in target.elts:
+                st = self._bind(t, None, st, None)
+            return st
+        if isinstance(target, ast.Starred):
+            return self._bind(target.value, None, st, None)
+        d = dotted(target)
+        if d is None:
+            # subscript store etc.: evaluate the pieces
+            return self.expr(target, st)
+        d = self.sa.key_of(target, self.f) if d in self.sa.aliases(self.f) else d
+        self._kill(st, d)
+        if pv is not None:
+            st.saved[d] = pv
+        # constructor position facts:  h = Cls(stream, ...)
+        if isinstance(value, ast.Call):
+            for (cnode, tgt, before, mapping) in reversed(self.call_states):
+                if cnode is value:
+                    summ = self.sa.summaries.get(id(tgt.node))
+                    if summ is not None and tgt.name == "__init__":
+                        for attr, (ckey, lo, hi) in summ.facts.items():
+                            ck = mapping.get(ckey)
+                            if ck is not None:
+                                p = before.p(ck)
+                                st.saved[d + "." + attr] = (ck, p[0] + lo, p[1] + hi)
+                elif cnode is not value and self.call_states and cnode is not self.call_states[-1][0]:
+                    pass
+        return st
+
+    def _loop(self, s, st, test=None, target=None):
+        head = st
+        infinite = test is not None and isinstance(test, ast.Constant) and bool(test.value)
+        brk = None
+        ret = None
+        for i in range(self.MAX_ITER):
+            t = head.copy()
+            if test is not None:
+                t = self.expr(test, t)
+            if target is not None and t is not None:
+                t = self._bind(target, None, t, None)
+            if t is None:
+                break
+            o = self.block(s.body, t)
+            brk = s_join(brk, o.brk)
+            ret = s_join(ret, o.ret)
+            back = s_join(o.fall, o.cont)
+            if back is None:
+                break
+            new = s_join(head, back)
+            if new == head:
+                break
+            head = s_widen(head, new) if i >= 1 else new
+        else:
+            # did not stabilise: give up precision
+            head = s_widen(head, SState({k: TOP for k in head.keys()}, {k: 0 for k in head.keys()}, {}))
+        ex = None
+        if not infinite:
+            ex = head.copy()
+            if test is not None:
+                ex = self.expr(test, ex)
+            if s.orelse and ex is not None:
+                o2 = self.block(s.orelse, ex)
+                ex = o2.fall
+                brk = s_join(brk, o2.brk)  # break in else belongs to an outer loop; approximated as fallthrough
+                ret = s_join(ret, o2.ret)
+        return Out(fall=s_join(ex, brk), ret=ret)
+
+    def _try(self, s, st) -> Out:
+        self.accs.append([st.copy()])
+        self.lows.append({})
+        seeks0 = self.seek_events
+        body = self.block(s.body, st)
+        acc = self.accs.pop()[0]
+        low = self.lows.pop()
+        # propagate lows to outer trackers
+        for lw in self.lows:
+            for k, v in low.items():
+                lw[k] = min(lw.get(k, INF), v)
+        h_in = acc
+        if h_in is not None:
+            h_in = h_in.copy()
+            for k in set(h_in.keys()) | set(low):
+                p = h_in.p(k)
+                lo = min(p[0], low.get(k, INF))
+                hi = INF if self.seek_events != seeks0 else p[1]
+                h_in.pos[k] = (lo, hi)
+            if self.seek_events != seeks0:
+                # positions remembered in variables stay valid; positions of streams do not
+                pass
+        res = Out(body.fall, body.brk, body.cont, body.ret)
+        if s.orelse and res.fall is not None:
+            o = self.block(s.orelse, res.fall)
+            res = Out(o.fall, s_join(res.brk, o.brk), s_join(res.cont, o.cont), s_join(res.ret, o.ret))
+        for h in s.handlers:
+            hs = h_in.copy()
+            if h.name:
+                self._kill(hs, h.name)
+            o = self.block(h.body, hs)
+            res = Out(s_join(res.fall, o.fall), s_join(res.brk, o.brk), s_join(res.cont, o.cont), s_join(res.ret, o.ret))
+        if s.finalbody:
+            def fin(x):
+                if x is None:
+                    return None, Out()
+                o = self.block(s.finalbody, x)
+                return o.fall, o
+            f1, o1 = fin(res.fall)
+            b1, o2 = fin(res.brk)
+            c1, o3 = fin(res.cont)
+            r1, o4 = fin(res.ret)
+            extra_ret = None
+            for o in (o1, o2, o3, o4):
+                extra_ret = s_join(extra_ret, o.ret)
+            res = Out(f1, b1, c1, s_join(r1, extra_ret))
+        return res
+
+    # ------------------------------------------------------------------ expressions
+    def expr(self, e, st):
+        if st is None or e is None:
+            return st
+        hk = self.sa.hooks.get(id(e))
+        if hk is not None:
+            hk.append(st.copy())
+        if isinstance(e, ast.Call):
+            return self.call(e, st)
+        if isinstance(e, ast.IfExp):
+            st = self.expr(e.test, st)
+            if st is None:
+                return None
+            return s_join(self.expr(e.body, st.copy()), self.expr(e.orelse, st.copy()))
+        if isinstance(e, ast.BoolOp):
+            st = self.expr(e.values[0], st)
+            for v in e.values[1:]:
+                if st is None:
+                    return None
+                st = s_join(st, self.expr(v, st.copy()))
+            return st
+        if isinstance(e, ast.Lambda):
+            return st
+        if isinstance(e, (ast.ListComp, ast.SetComp, ast.GeneratorExp, ast.DictComp)):
+            return self.comp_gen(e, 0, st)
+        if isinstance(e, ast.NamedExpr):
+            st = self.expr(e.value, st)
+            if st is None:
+                return None
+            return self._bind(e.target, e.value, st, self.pos_value(e.value, st))
+        if isinstance(e, (ast.Constant, ast.Name)):
+            return st
+        for ch in ast.iter_child_nodes(e):
+            if isinstance(ch, ast.expr):
+                st = self.expr(ch, st)
+                if st is None:
+                    return None
+            elif isinstance(ch, (ast.keyword,)):
+                st = self.expr(ch.value, st)
+            elif isinstance(ch, ast.FormattedValue):
+                st = self.expr(ch.value, st)
+            elif isinstance(ch, ast.Slice):
+                for x in (ch.lower, ch.upper, ch.step):
+                    st = self.expr(x, st)
+        return st
+
+    def _comp_elts(self, e):
+        if isinstance(e, ast.DictComp):
+            return [e.key, e.value]
+        return [e.elt]
+
+    def comp_body(self, e, i, st):
+        """one iteration of generator i (every path: a failing filter, or the element)"""
+        g = e.generators[i]
+        t = self._bind(g.target, None, st.copy(), None)
+        paths = []
+        for c in g.ifs:
+            t = self.expr(c, t)
+            if t is None:
+                break
+            paths.append(t.copy())
+        if t is not None:
+            if i + 1 < len(e.generators):
+                t = self.comp_gen(e, i + 1, t)
+            else:
+                for x in self._comp_elts(e):
+                    t = self.expr(x, t)
+                    if t is None:
+                        break
+        res = t
+        for p in paths:
+            res = s_join(res, p)
+        return res
+
+    def comp_gen(self, e, i, st):
+        g = e.generators[i]
+        st = self.expr(g.iter, st)
+        if st is None:
+            return None
+        head = st
+        for k in range(self.MAX_ITER):
+            back = self.comp_body(e, i, head)
+            if back is None:
+                break
+            new = s_join(head, back)
+            if new == head:
+                break
+            head = s_widen(head, new) if k >= 1 else new
+        else:
+            head = s_widen(head, SState({k2: TOP for k2 in head.keys()}, {k2: 0 for k2 in head.keys()}, {}))
+        return head
+
+    # ------------------------------------------------------------------ calls
+    def call(self, e: ast.Call, st):
+        f = self.f
+        cr = self.sa.checked_read(e, f)
+        if cr is not None:
+            key, n, rcall = cr
+            # evaluate the non-read operands (format expression, packer receiver): no stream effects expected
+            if rcall is not None:
+                for a in rcall.args:
+                    st = self.expr(a, st)
+                    if st is None:
+                        return None
+                self.touches = True
+                p = st.p(key)
+                if p[0] >= 0:
+                    st.anch[key] = st.a(key) + n
+                self._advance(st, key, (n, n))
+                return st
+            # `x = S.read(n)` in the immediately preceding statement, then unpack(fmt, x)
+            if self._prev_stmt_defines(e):
+                p = st.p(key)
+                # the earlier unchecked read contributed [0, n]; it is now known to have returned n bytes
+                if p[0] >= 0:
+                    st.anch[key] = st.a(key) + n
+                self._setpos(st, key, (p[0] + n, p[1]))
+                return st
+        fn = e.func
+        if isinstance(fn, ast.Attribute) and fn.attr in STREAM_METHODS and self.sa.is_stream_recv(fn.value, f):
+            key = self.sa.key_of(fn.value, f)
+            if key is not None:
+                st = self.expr(fn.value, st)
+                for a in e.args:
+                    st = self.expr(a, st)
+                for kw in e.keywords:
+                    st = self.expr(kw.value, st)
+                if st is None:
+                    return None
+                st = self._primitive(e, fn.attr, key, st)
+                # unknown receiver type: the same spelling may also be a repository method
+                ts, kind = self.cg.resolve_call(e, f)
+                if ts and kind == "byname":
+                    st = s_join(st, self._apply_targets(e, ts, kind, st.copy()))
+                return st
+        # generic call: receiver, arguments, then the callee's effect
+        if isinstance(fn, ast.Attribute):
+            st = self.expr(fn.value, st)
+        elif not isinstance(fn, ast.Name):
+            st = self.expr(fn, st)
+        for a in e.args:
+            st = self.expr(a.value if isinstance(a, ast.Starred) else a, st)
+        for kw in e.keywords:
+            st = self.expr(kw.value, st)
+        if st is None:
+            return None
+        ts, kind = self.cg.resolve_call(e, f)
+        if kind in ("external", "lambda") or (not ts and kind != "unknown"):
+            return self._external(e, st, kind)
+        if kind == "unknown" and not ts:
+            passed = self._stream_args(e, st)
+            if passed:
+                self.unresolved.append(e)
+                for k in passed:
+                    self._setpos(st, k, TOP)
+            return st
+        return self._apply_targets(e, ts, kind, st)
+
+    def _prev_stmt_defines(self, call):
+        arg = call.args[1] if (isinstance(call.func, ast.Name) or (isinstance(call.func, ast.Attribute) and isinstance(call.func.value, ast.Name)
+                                                                   and call.func.value.id == "struct")) and len(call.args) > 1 else call.args[0]
+        if not isinstance(arg, ast.Name):
+            return False
+        n = call
+        while n is not None and not isinstance(n, ast.stmt):
+            n = parent(n)
+        if n is None:
+            return False
+        p = parent(n)
+        for fld in ("body", "orelse", "finalbody"):
+            lst = getattr(p, fld, None)
+            if isinstance(lst, list) and any(x is n for x in lst):
+                i = [k for k, x in enumerate(lst) if x is n][0]
+                if i == 0:
+                    return False
+                prev = lst[i - 1]
+                return isinstance(prev, ast.Assign) and len(prev.targets) == 1 and isinstance(prev.targets[0], ast.Name) \
+                    and prev.targets[0].id == arg.id and self.sa._as_read(prev.value, self.f) is not None
+        return False
+
+    def _primitive(self, e, meth, key, st):
+        self.touches = True
+        if meth == "tell":
+            return st
+        if meth == "read":
+            hi = INF
+            if e.args:
+                b = self.b.eval(e.args[0], self.f)
+                if b[0] >= 0 and b[1] < INF:
+                    hi = b[1]
+            self._advance(st, key, (0, hi))
+            return st
+        # seek
+        self.has_seek = True
+        self.seek_events += 1
+        whence = None
+        if len(e.args) >= 2:
+            whence = e.args[1]
+        for kw in e.keywords:
+            if kw.arg == "whence":
+                whence = kw.value
+        mode = 0
+        if whence is not None:
+            txt = ast.unparse(whence)
+            v = self.b.fold(whence, self.f)
+            if txt.endswith("SEEK_CUR") or (isinstance(v, int) and v == 1):
+                mode = 1
+            elif txt.endswith("SEEK_SET") or (isinstance(v, int) and v == 0):
+                mode = 0
+            else:
+                mode = 2
+        if not e.args:
+            self._setpos(st, key, TOP)
+            return st
+        if mode == 1:
+            d = self.b.eval(e.args[0], self.f)
+            self._advance(st, key, d)
+            return st
+        if mode == 0:
+            pv = self.pos_value(e.args[0], st)
+            if pv is not None and pv[0] == key:
+                self._setpos(st, key, (pv[1], pv[2]))
+            else:
+                self._setpos(st, key, TOP)
+            return st
+        self._setpos(st, key, TOP)
+        return st
+
+    def _stream_args(self, e, st):
+        out = []
+        for a in list(e.args) + [kw.value for kw in e.keywords]:
+            if isinstance(a, (ast.Name, ast.Attribute)):
+                k = self.sa.key_of(a, self.f)
+                if k is not None and k in st.keys():
+                    out.append(k)
+        return out
+
+    def _external(self, e, st, kind):
+        # a tracked stream handed to code we cannot see may be consumed or repositioned by it
+        r = self.cg.resolve_callable(e.func, self.f)
+        name = r[1] if r and r[0] == "external" else ast.unparse(e.func)
+        harmless = name in ("len", "isinstance", "id", "type", "print", "repr", "str", "hash", "bool") or name.startswith("logger.")
+        if not harmless:
+            for k in self._stream_args(e, st):
+                self._setpos(st, k, TOP)
+                self.touches = True
+        return st
+
+    def _arg_for_param(self, e: ast.Call, tgt: Func, pname, kind):
+        ps = [p.arg for p in tgt.node.args.posonlyargs + tgt.node.args.args]
+        skip = 0
+        if kind == "ctor" or (self.cg.is_method(tgt) and kind in ("typed", "byname", "super", "implicit", "hof", "table")):
+            skip = 1
+        if kind == "direct" and self.cg.is_method(tgt) and isinstance(e.func, ast.Attribute):
+            # Class.method(obj, ...) or self.method(...)
+            t = self.cg.type_of(e.func.value, self.f)
+            r = self.cg.resolve_callable(e.func.value, self.f) if isinstance(e.func.value, ast.Name) else None
+            skip = 0 if (r and r[0] == "class") else 1
+        if kind == "table":
+            skip = 1 if tgt.name == "__init__" else 0
+        if kind == "hof":
+            skip = 1 if tgt.name == "__init__" else 0
+        for kw in e.keywords:
+            if kw.arg == pname:
+                return kw.value
+        if pname in ps:
+            i = ps.index(pname) - skip
+            if 0 <= i < len(e.args) and not any(isinstance(a, ast.Starred) for a in e.args[: i + 1]):
+                return e.args[i]
+        return None
+
+    def _receiver_text(self, e: ast.Call, tgt: Func, kind):
+        if kind == "ctor" or tgt.name == "__init__" and kind in ("table", "hof"):
+            return None
+        fn = e.func
+        if isinstance(fn, ast.Attribute) and self.cg.is_method(tgt):
+            return self.sa.key_of(fn.value, self.f)
+        if kind == "implicit":
+            # next(x) / len(x) / x[i]
+            if isinstance(e, ast.Call) and e.args:
+                return self.sa.key_of(e.args[0], self.f)
+        return None
+
+    def _apply_targets(self, e, ts, kind, st):
+        res = None
+        any_summary = False
+        for t in ts:
+            if t.name == "__new__":
+                continue
+            k = id(t.node)
+            summ = self.sa.summaries.get(k)
+            if summ is None:
+                if k in self.sa._in_progress:
+                    summ = Summary()
+                else:
+                    summ = self.sa.summary(t)
+            any_summary = True
+            r = self._apply_summary(e, t, kind, summ, st.copy())
+            res = s_join(res, r)
+        if not any_summary:
+            return st
+        return res
+
+    def _apply_summary(self, e, tgt, kind, summ: Summary, st):
+        self.has_seek |= summ.has_seek
+        self.touches |= summ.touches
+        if summ.has_seek:
+            self.seek_events += 1
+        if summ.unresolved:
+            self.unresolved += [e]
+        sn = self.cg.self_name(tgt)
+        mapping = {}
+        recv = self._receiver_text(e, tgt, kind)
+        for ckey in summ.keys:
+            root = ckey.split(".")[0]
+            rest = ckey[len(root):]
+            if sn is not None and root == sn:
+                if recv is not None:
+                    mapping[ckey] = recv + rest
+                continue
+            a = self._arg_for_param(e, tgt, root, kind)
+            if a is None:
+                continue
+            at = self.sa.key_of(a, self.f) if isinstance(a, (ast.Name, ast.Attribute)) else None
+            if at is not None:
+                mapping[ckey] = at + rest
+        self.call_states.append((e, tgt, st.copy(), mapping))
+        if not summ.returns:
+            return None
+        before = st.copy()
+        for ckey, (lo, hi, anch, *rest) in summ.keys.items():
+            k = mapping.get(ckey)
+            if k is None:
+                continue
+            low = rest[0] if rest else min(lo, 0)
+            p = before.p(k)
+            if p[0] >= 0 and anch:
+                st.anch[k] = st.a(k) + anch
+            self._advance(st, k, (lo, hi), low=low)
+        if summ.wild:
+            self.wild = True
+            mapped = set(mapping.values())
+            for k in list(st.keys()):
+                if k in mapped:
+                    continue
+                if self.sa.is_fresh_local(k.split(".")[0], self.f):
+                    continue
+                self._setpos(st, k, TOP)
+        return st
